@@ -252,3 +252,7 @@ func vpDecodeRune(s string) (rune, int) {
 	}
 	return 0xFFFD, 1
 }
+
+// vpGobHostile switches the engine's gob model to hostile mode (Decode answers with an error or
+// an arbitrary well-typed value); natively it does nothing.
+func vpGobHostile(on bool) {}
